@@ -21,8 +21,8 @@ import (
 // `go build -overlay -tags verif` by /verif; it exports unexported pieces to
 // the verification harness and changes no behaviour.
 
-// VerifLocked reports whether the switch's mutex is currently held (by run).
-func (s *ErrChanSwitch) VerifLocked() bool {
+// VerifC18Locked reports whether the switch's mutex is currently held (by run).
+func (s *ErrChanSwitch) VerifC18Locked() bool {
 	if s.TryLock() {
 		s.Unlock()
 		return false
@@ -30,9 +30,9 @@ func (s *ErrChanSwitch) VerifLocked() bool {
 	return true
 }
 
-// VerifAuthenticate runs the real acctSubscription.authenticate with the
+// VerifC18Authenticate runs the real acctSubscription.authenticate with the
 // given message sender, signer and channels.
-func VerifAuthenticate(ctx context.Context, acctKey *keychain.KeyDescriptor,
+func VerifC18Authenticate(ctx context.Context, acctKey *keychain.KeyDescriptor,
 	sendMsg func(*auctioneerrpc.ClientAuctionMessage) error,
 	signer lndclient.SignerClient,
 	msgChan chan *auctioneerrpc.ServerAuctionMessage,
@@ -52,16 +52,16 @@ func VerifAuthenticate(ctx context.Context, acctKey *keychain.KeyDescriptor,
 	return sub.commitHash, err
 }
 
-// verifTermsClient fails the first `fails` Terms calls and opens a stream
+// verifC18TermsClient fails the first `fails` Terms calls and opens a stream
 // that stays silent until its context is cancelled.
-type verifTermsClient struct {
+type verifC18TermsClient struct {
 	auctioneerrpc.ChannelAuctioneerClient
 	mu       sync.Mutex
 	fails    int
 	attempts []time.Time
 }
 
-func (v *verifTermsClient) Terms(context.Context, *auctioneerrpc.TermsRequest,
+func (v *verifC18TermsClient) Terms(context.Context, *auctioneerrpc.TermsRequest,
 	...grpc.CallOption) (*auctioneerrpc.TermsResponse, error) {
 
 	v.mu.Lock()
@@ -73,30 +73,30 @@ func (v *verifTermsClient) Terms(context.Context, *auctioneerrpc.TermsRequest,
 	return &auctioneerrpc.TermsResponse{}, nil
 }
 
-type verifSilentStream struct {
+type verifC18SilentStream struct {
 	auctioneerrpc.ChannelAuctioneer_SubscribeBatchAuctionClient
 	ctx context.Context
 }
 
-func (s *verifSilentStream) Recv() (*auctioneerrpc.ServerAuctionMessage, error) {
+func (s *verifC18SilentStream) Recv() (*auctioneerrpc.ServerAuctionMessage, error) {
 	<-s.ctx.Done()
 	return nil, status.Error(codes.Canceled, "context canceled")
 }
-func (s *verifSilentStream) CloseSend() error { return nil }
+func (s *verifC18SilentStream) CloseSend() error { return nil }
 
-func (v *verifTermsClient) SubscribeBatchAuction(ctx context.Context,
+func (v *verifC18TermsClient) SubscribeBatchAuction(ctx context.Context,
 	_ ...grpc.CallOption) (auctioneerrpc.ChannelAuctioneer_SubscribeBatchAuctionClient, error) {
 
-	return &verifSilentStream{ctx: ctx}, nil
+	return &verifC18SilentStream{ctx: ctx}, nil
 }
 
-// VerifConnect runs the real Client.connectServerStream against a Terms RPC
+// VerifC18Connect runs the real Client.connectServerStream against a Terms RPC
 // that fails `fails` times. It returns the returned error, whether a stream
 // was opened, and the time of each connection attempt relative to the start.
-func VerifConnect(initial, minB, maxB time.Duration, numRetries,
+func VerifC18Connect(initial, minB, maxB time.Duration, numRetries,
 	fails int) (error, bool, []time.Duration) {
 
-	tc := &verifTermsClient{fails: fails}
+	tc := &verifC18TermsClient{fails: fails}
 	c := &Client{
 		cfg:             &Config{MinBackoff: minB, MaxBackoff: maxB},
 		client:          tc,
@@ -118,9 +118,9 @@ func VerifConnect(initial, minB, maxB time.Duration, numRetries,
 	return err, opened, at
 }
 
-// VerifSubscribed returns the keys of Client.subscribedAccts together with the
+// VerifC18Subscribed returns the keys of Client.subscribedAccts together with the
 // commit hash of each subscription.
-func (c *Client) VerifSubscribed() map[[33]byte][32]byte {
+func (c *Client) VerifC18Subscribed() map[[33]byte][32]byte {
 	c.subscribedAcctsMtx.Lock()
 	defer c.subscribedAcctsMtx.Unlock()
 	res := make(map[[33]byte][32]byte, len(c.subscribedAccts))
@@ -130,5 +130,5 @@ func (c *Client) VerifSubscribed() map[[33]byte][32]byte {
 	return res
 }
 
-// VerifSwitch exposes the client's error channel switch.
-func (c *Client) VerifSwitch() *ErrChanSwitch { return c.errChanSwitch }
+// VerifC18Switch exposes the client's error channel switch.
+func (c *Client) VerifC18Switch() *ErrChanSwitch { return c.errChanSwitch }
